@@ -1735,6 +1735,13 @@ impl ExternalSortExec {
                     // Check if current buffer is exhausted
                     if let Some(ref batch) = run_buffers[run_idx] {
                         if run_indices[run_idx] >= batch.num_rows() {
+                            // Pending output rows index into the buffers as they are now:
+                            // materialize them before this buffer is replaced or dropped.
+                            if !output_rows.is_empty() {
+                                let merged = self.build_merged_batch(&run_buffers, &output_rows)?;
+                                result_batches.push(merged);
+                                output_rows.clear();
+                            }
                             // Try to load next batch from this run
                             if let Some(next_batch) = run_iterators[run_idx].next() {
                                 run_buffers[run_idx] = Some(next_batch?);
